@@ -186,7 +186,7 @@ def rule_e_restartable_schedule(ctx, fns):
     n = 0
     seen = set()
     for f in fns:
-        if f.body is None or f.is_dependent or f.short not in ("get_subset_num", "end_of_iteration_processing") or f.short in seen:
+        if f.body is None or f.is_dependent or f.short not in ("get_subset_num", "end_of_iteration_processing", "update_estimate") or f.short in seen:
             continue
         seen.add(f.short)
         defs = LocalDefs(f)
@@ -205,8 +205,9 @@ def rule_e_restartable_schedule(ctx, fns):
                         if "this.start_subiteration_num" in key(p_.strip(), False, sub):
                             bad.append(p_)
         else:
+            # (also the update itself - seed C07-5: the inter-update filter skipped for the first update of a run)
             for m in f.walk():
-                if m.k == "IfStmt" and m.c and "this.start_subiteration_num" in key(m.c[0].strip(), False, sub):
+                if m.k in ("IfStmt", "ConditionalOperator", "WhileStmt") and m.c and re.search(r"this\.start_subiteration_num|get_start_subiteration_num\(", key(m.c[0].strip(), False, sub)):
                     bad.append(m.c[0])
         ctx.ob("C07.e-restartable-schedule", f.qn, "independent-of-start-subiteration", not bad, (bad[0] if bad else f).where(), "what sub-iteration k does depends on k and shared settings only" if not bad else "`%s` depends on start_subiteration_num: a run resumed at sub-iteration k+1 does something else at sub-iteration k+1 than the uninterrupted run" % key(bad[0].strip(), True)[:160])
         n += 1
@@ -371,7 +372,7 @@ def run(ctx):
     u4 = ctx.ex.get(reqs[3])
     if u4 is None:
         return
-    rule_e_restartable_schedule(ctx, u4.functions)
-    ctx.require_count("C07.e-restartable-schedule", 2)
+    rule_e_restartable_schedule(ctx, u4.functions + [f for f in u.functions if f.short == "update_estimate"])
+    ctx.require_count("C07.e-restartable-schedule", 3)
     ctx.require_count("C07.a-subiteration-structure", 2)
     ctx.require_count("C07.b-MAP-denominator", 4)
